@@ -2,7 +2,10 @@
 // evaluate it <n> times in fresh VMs (default globals, virtual OS with a three-variable environment,
 // captured stdout) and print one line:
 //
-//	D <sha of (marshal bytes)> <sha of (result inspect, error text, stdout)> same_compile=<0|1> same_eval=<0|1>
+//	D <sha of (marshal bytes)> <sha of (result inspect, error text, stdout)> same_compile=<0|1> same_eval=<0|1> same_reload=<0|1> <hex result> <hex why>
+//
+// same_reload: MarshalCode -> UnmarshalCode -> MarshalCode gives the same bytes (two rounds) and the code read back evaluates
+// (risor.EvalCode) to the same result / error / output as the source.
 //
 // The check runs this tool in several fresh processes and compares the digests across them.
 package main
@@ -21,6 +24,7 @@ import (
 
 	"github.com/risor-io/risor"
 	"github.com/risor-io/risor/compiler"
+	"github.com/risor-io/risor/object"
 	ros "github.com/risor-io/risor/os"
 	"github.com/risor-io/risor/parser"
 )
@@ -38,13 +42,31 @@ var denied = []string{"exec", "http", "net", "ssh", "sql", "pgx", "aws", "redis"
 	"playwright", "fetch", "nslookup", "rand", "time", "uuid", "sched"}
 
 func evalOnce(parent context.Context, src string) string {
+	return evalOnceOS(parent, src, nil)
+}
+
+func evalOnceOS(parent context.Context, src string, oc *osCase) string {
+	return evalAny(parent, src, nil, oc)
+}
+
+// evalAny evaluates the source, or - when code is given - that compiled code (risor.EvalCode), under the same configuration
+func evalAny(parent context.Context, src string, code *compiler.Code, oc *osCase) string {
 	// every evaluation has its own time budget; one that runs into it is reported as such (what a cancelled
 	// evaluation has produced so far depends on the clock, not on the program)
 	ctx, cancel := context.WithTimeout(context.Background(), 4*time.Second)
 	defer cancel()
 	out := &bufFile{}
 	vos := ros.NewVirtualOS(ctx, ros.WithStdout(out), ros.WithEnvironment(map[string]string{"B": "2", "A": "1", "C": "3"}))
-	res, err := risor.Eval(ctx, src, risor.WithOS(vos), risor.WithoutGlobals(denied...))
+	if oc != nil {
+		vos = buildOS(ctx, oc, out)
+	}
+	var res object.Object
+	var err error
+	if code != nil {
+		res, err = risor.EvalCode(ctx, code, risor.WithOS(vos), risor.WithoutGlobals(denied...))
+	} else {
+		res, err = risor.Eval(ctx, src, risor.WithOS(vos), risor.WithoutGlobals(denied...))
+	}
 	s := ""
 	if err != nil {
 		if ctx.Err() != nil || strings.Contains(err.Error(), "context deadline exceeded") {
@@ -57,6 +79,29 @@ func evalOnce(parent context.Context, src string) string {
 	return s + "\x00" + out.String()
 }
 
+// firstDiff shows the neighbourhood of the first byte at which two marshalled forms differ
+func firstDiff(a, b []byte) string {
+	i := 0
+	for i < len(a) && i < len(b) && a[i] == b[i] {
+		i++
+	}
+	lo := i - 30
+	if lo < 0 {
+		lo = 0
+	}
+	cut := func(x []byte) string {
+		hi := i + 30
+		if hi > len(x) {
+			hi = len(x)
+		}
+		if lo > len(x) {
+			return ""
+		}
+		return string(x[lo:hi])
+	}
+	return fmt.Sprintf("at-byte-%d:`%s`-vs-`%s`", i, cut(a), cut(b))
+}
+
 func main() {
 	n, _ := strconv.Atoi(os.Args[1])
 	w := bufio.NewWriterSize(os.Stdout, 1<<20)
@@ -64,7 +109,19 @@ func main() {
 	sc := bufio.NewScanner(os.Stdin)
 	sc.Buffer(make([]byte, 1<<20), 1<<24)
 	for sc.Scan() {
-		b, _ := hex.DecodeString(sc.Text())
+		line := sc.Text()
+		var oc *osCase
+		if strings.HasPrefix(line, "O ") {
+			js, _ := hex.DecodeString(line[2:])
+			c, err := parseOSCase(js)
+			if err != nil {
+				fmt.Fprintln(w, "SKIP bad os case")
+				continue
+			}
+			oc = c
+			line = hex.EncodeToString([]byte(c.Src))
+		}
+		b, _ := hex.DecodeString(line)
 		src := string(b)
 		func() {
 			defer func() {
@@ -76,6 +133,7 @@ func main() {
 			defer cancel()
 			cfg := risor.NewConfig(risor.WithoutGlobals(denied...))
 			var firstM []byte
+			var lastCode *compiler.Code
 			sameC := 1
 			for i := 0; i < n; i++ {
 				prog, err := parser.Parse(ctx, src)
@@ -94,6 +152,7 @@ func main() {
 					}
 					continue
 				}
+				lastCode = code
 				m, err := compiler.MarshalCode(code)
 				if err != nil {
 					m = []byte("MERR " + err.Error())
@@ -104,11 +163,39 @@ func main() {
 					sameC = 0
 				}
 			}
+			// "identical bytecode, also after serialisation": the marshalled form read back and marshalled again gives the same
+			// bytes (a second round too), and the code that was read back evaluates like the source
+			sameR := 1
+			reloadWhy := ""
+			var reloaded *compiler.Code
+			if lastCode != nil && firstM != nil && !bytes.HasPrefix(firstM, []byte("MERR ")) {
+				cur := firstM
+				for round := 0; round < 2 && sameR == 1; round++ {
+					c2, err := compiler.UnmarshalCode(cur)
+					if err != nil {
+						sameR, reloadWhy = 0, "unmarshal:"+err.Error()
+						break
+					}
+					m2, err := compiler.MarshalCode(c2)
+					if err != nil {
+						sameR, reloadWhy = 0, "remarshal:"+err.Error()
+						break
+					}
+					if !bytes.Equal(m2, firstM) {
+						sameR, reloadWhy = 0, fmt.Sprintf("bytes-differ-round-%d:%s", round+1, firstDiff(firstM, m2))
+						break
+					}
+					if round == 0 {
+						reloaded = c2
+					}
+					cur = m2
+				}
+			}
 			firstE := ""
 			sameE := 1
 			timedOut := false
 			for i := 0; i < n; i++ {
-				e := evalOnce(ctx, src)
+				e := evalOnceOS(ctx, src, oc)
 				if e == "TIMEOUT" {
 					timedOut = true
 					break
@@ -117,6 +204,15 @@ func main() {
 					firstE = e
 				} else if e != firstE {
 					sameE = 0
+				}
+			}
+			if !timedOut && reloaded != nil && sameR == 1 {
+				e := evalAny(ctx, src, reloaded, oc)
+				if e == "TIMEOUT" {
+					timedOut = true
+				} else if e != firstE {
+					sameR = 0
+					reloadWhy = "evaluation-of-reloaded-code-differs:" + strings.SplitN(e, "\x00", 2)[0]
 				}
 			}
 			if timedOut {
@@ -129,7 +225,11 @@ func main() {
 			if len(show) > 80 {
 				show = show[:80]
 			}
-			fmt.Fprintf(w, "D %x %x same_compile=%d same_eval=%d %s\n", hm[:8], he[:8], sameC, sameE, show)
+			if len(reloadWhy) > 300 {
+				reloadWhy = reloadWhy[:300]
+			}
+			fmt.Fprintf(w, "D %x %x same_compile=%d same_eval=%d same_reload=%d %s %s\n", hm[:8], he[:8], sameC, sameE, sameR, show,
+				hex.EncodeToString([]byte(reloadWhy)))
 		}()
 	}
 }
